@@ -1,6 +1,7 @@
 import HabuVerif.Core.Toy
 import HabuVerif.Drv.IniDrv
 import HabuVerif.Drv.InputsDrv
+import HabuVerif.Drv.RealDrv
 /-!
 Line-protocol driver: the correspondence harness pipes operations in, the model's answers come
 out, one canonical line each.  Imports model files only (no Mathlib), so it can be compiled.
@@ -121,6 +122,7 @@ inductive Mode where
   | idle
   | toy (c : ToyCase)
   | tracker (t : Tracker String String)
+  | real (c : HabuVerif.RealDrv.Case)
 
 partial def loop (h : IO.FS.Stream) (out : IO.FS.Stream) (m : Mode) : IO Unit := do
   let line ← h.getLine
@@ -138,6 +140,10 @@ partial def loop (h : IO.FS.Stream) (out : IO.FS.Stream) (m : Mode) : IO Unit :=
     let (t', o) := stepTracker t l
     out.putStrLn o
     loop h out (.tracker t')
+  | .real c, l =>
+    let (c', outs) := HabuVerif.RealDrv.step c l
+    for o in outs do out.putStrLn o
+    loop h out (.real c')
   | .idle, "sortkeys" =>
     -- next line: names separated by spaces; answer: naturally sorted
     let l ← h.getLine
@@ -148,7 +154,10 @@ partial def loop (h : IO.FS.Stream) (out : IO.FS.Stream) (m : Mode) : IO Unit :=
     -- stateless streams: `<stream> <op...>`
     if l.startsWith "ini " then out.putStrLn (IniDrv.step (l.drop 4).toString)
     else if l.startsWith "inp " then out.putStrLn (InputsDrv.step (l.drop 4).toString)
-    else out.putStrLn "bad-op"
+    else
+      match HabuVerif.RealDrv.begin? l with
+      | some c => return (← loop h out (.real c))
+      | none => out.putStrLn "bad-op"
     loop h out .idle
 
 def main : IO Unit := do
